@@ -347,6 +347,8 @@ func exec(line string) (out zv.Out) {
 			o.Viol = fmt.Sprintf("%s: strict prefixes of lengths %v of the %d-byte encoding are accepted", kind, acc, len(bs))
 		}
 		return o
+	case "wb", "ub", "rm":
+		return execBinders(a)
 	case "un":
 		kind := a[2]
 		dump, uok := tls.ZVUnmarshal(kind, a[3], unhex(a[4]))
@@ -824,6 +826,9 @@ func genExtOrder(g *zv.Gen, kind string, n int) {
 			es = append(append(es, ea[:k]...), ea[k+1:]...)
 		}
 		g.Emitf("c30 un %s - %s", kind, hx(helloJoin(ha, es)))
+		if i%3 == 0 { // non-canonical but accepted inputs: cached bytes vs. fresh marshal
+			g.Emitf("c30 rm %s - %s", kind, hx(helloJoin(ha, es)))
+		}
 	}
 }
 
@@ -845,6 +850,8 @@ func gen(g *zv.Gen) {
 	}
 	// deterministic length boundaries of every length-prefixed field / nested list of every kind (bnd.go)
 	genBoundaries(g)
+	genBinders(g)
+	genRemarshal(g)
 	kinds := tls.ZVKinds()
 	per := g.N(800, 30000)
 	for _, k := range kinds {
@@ -892,5 +899,6 @@ func init() {
 			"with empty/1-byte/typical/maximal fields covering every field the marshaller reads (incl. extended random, unknown extensions, PSK, key shares), " +
 			"a few deliberately outside the round-trip domain; rt = marshal+unmarshal, pre = unmarshal of EVERY strict prefix of the encoding, " +
 			"un = unmarshal of mutated encodings (bit flip, ±1, insert, delete, truncate, append), of hellos with permuted / duplicated / merged / dropped extension entries, and noise; a case is one distinct line; " +
+			"wb / ub = clientHelloMsg.marshalWithoutBinders / updateBinders on seeded hellos (two thirds with the pre_shared_key extension; new binders of equal lengths, one too few / too many / one byte longer; with and without the raw cache); rm = unmarshal, cached marshal, marshal without the cache (valid encodings, wrong header bytes, mutations); " +
 			"T3 = unmarshal(marshal(m)) == m on the real code for values inside the domain, and no accepted strict prefix for kinds without optional tail"})
 }
